@@ -49,11 +49,11 @@ def plan(tier):
 
 @st.composite
 def cases(draw, dag=False):
+    recalc = draw(st.booleans())        # drawn first (see C04)
     if dag:
         ops, G, _info = gen.gen_dag_model(draw, uncached_p=2, handled=False)
     else:
         ops, G = gen.gen_model_ops(draw, FEAT)
-    recalc = draw(st.booleans())
     sids = gen.all_ctx_ids(G) + gen.item_sids(G, 2)
     hist = []
     gsim = MemoSim()        # the generator's own picture of what is held (used to aim edits)
